@@ -2,17 +2,22 @@
     [pipeline c p m] is the model of one EventTx message against pool [p]
     (Model.v); [acceptable c p s] is the conjunction of the property text
     (Spec.v).  Guards (Proofs.v): [g_fwd] not forwarded to the main chain,
-    [g_wrap] a group's wrapper is its first transaction, [g_fee] minimum rate
-    non-zero or tiered fee on or Fee >= 0, [g_hdr] no member Header parses as an
-    empty group.  [cfg_ok]: MinTxFeeRate >= 0 and MaxTxFeeRate >= 0. *)
+    [g_fee] minimum rate non-zero or tiered fee on or Fee >= 0, [g_hdr] no member
+    Header parses as an empty group.  [cfg_ok]: MinTxFeeRate >= 0 and
+    MaxTxFeeRate >= 0.  [facts_consistent] (Model.v): the facts given for a
+    group's wrapper and first member respect what Hash() and the Signature
+    message determine (equal hash: equal Nonce and Fee; equal Signature: equal
+    sender and sign type); the check evaluates it on every generated case.
+    The former guard "the wrapper is the first transaction" is gone: the
+    repaired mempool (isGroupHead) enforces it. *)
 From Coq Require Import List ZArith NArith Bool.
 From C33 Require Import C22.Model C22.Spec C22.Proofs C22.ProofsRefute.
 Import ListNotations.
 Open Scope Z_scope.
 
 Theorem C22_accepted_implies_acceptable_partial : forall c p s p',
-  cfg_ok c -> pipeline c p (STx s) = (R_OK, p') ->
-  g_fwd s && g_wrap s && g_fee c s && g_hdr s = true ->
+  cfg_ok c -> facts_consistent s = true -> pipeline c p (STx s) = (R_OK, p') ->
+  g_fwd s && g_fee c s && g_hdr s = true ->
   acceptable c p s = true.
 Proof. exact accepted_partial. Qed.
 Print Assumptions C22_accepted_implies_acceptable_partial.
@@ -40,6 +45,35 @@ Theorem C22_accepted_appends_one : forall c p m p',
 Proof. exact accepted_appends. Qed.
 Print Assumptions C22_accepted_appends_one.
 
+(** finding 2 repaired: the wrapper of an admitted group is its first transaction (same hash,
+    same Signature message), hence the pool entry [same_entry] of the property ... *)
+Theorem C22_group_wrapper_is_head : forall c p s ms ok p',
+  pipeline c p (STx s) = (R_OK, p') -> s_forward s = false -> s_shape s = Group ms ok ->
+  exists h tl, ms = h :: tl /\ t_id (s_outer s) = t_id h /\ t_sigid (s_outer s) = t_sigid h
+               /\ (facts_consistent s = true -> same_entry (s_outer s) h = true).
+Proof. exact group_wrapper_is_head. Qed.
+Print Assumptions C22_group_wrapper_is_head.
+
+(** ... and any other wrapper is refused without touching the pool *)
+Theorem C22_foreign_wrapper_rejected : forall c p s h tl ok,
+  c_synced c = true -> s_forward s = false -> s_shape s = Group (h :: tl) ok ->
+  is_group_head (s_outer s) h = false ->
+  exists r, pipeline c p (STx s) = (r, p) /\ r <> R_OK.
+Proof. exact foreign_wrapper_rejected. Qed.
+Print Assumptions C22_foreign_wrapper_rejected.
+
+(** the former refutation witness (wrapper with another account's public key, per-sender limit 1):
+    refused, the other account's own transaction is admitted, the honest wrapper is admitted *)
+Theorem C22_wrapper_witness_rejected :
+  let c := wcfg false 100000 1 in
+  pipeline c [] (STx w_wrap) = (R_MALFORMED, [])
+  /\ pipeline c [] (STx (mkSub (wtx 5 1 100000) Plain false)) = (R_OK, [wtx 5 1 100000])
+  /\ pipeline c [] (STx w_wrap_honest) = (R_OK, [s_outer w_wrap_honest])
+  /\ facts_consistent w_wrap = true /\ facts_consistent w_wrap_honest = true
+  /\ acceptable c [] w_wrap = false /\ acceptable c [] w_wrap_honest = true.
+Proof. exact wrapper_witness_rejected. Qed.
+Print Assumptions C22_wrapper_witness_rejected.
+
 (** the statement at full strength ([C22_accepted_implies_acceptable_full], ProofsRefute.v:
     no guard), and why each guard is there *)
 Theorem C22_accepted_implies_acceptable_refuted : ~ C22_accepted_implies_acceptable_full.
@@ -47,32 +81,26 @@ Proof. exact refuted_full. Qed.
 Print Assumptions C22_accepted_implies_acceptable_refuted.
 
 Theorem C22_refuted_forward :
-  ~ (forall c p s p', cfg_ok c -> pipeline c p (STx s) = (R_OK, p') ->
-       g_wrap s && g_fee c s && g_hdr s = true -> acceptable c p s = true).
+  ~ (forall c p s p', cfg_ok c -> facts_consistent s = true -> pipeline c p (STx s) = (R_OK, p') ->
+       g_fee c s && g_hdr s = true -> acceptable c p s = true).
 Proof. exact refuted_forward. Qed.
 Print Assumptions C22_refuted_forward.
 
-Theorem C22_refuted_wrapper :
-  ~ (forall c p s p', cfg_ok c -> pipeline c p (STx s) = (R_OK, p') ->
-       g_fwd s && g_fee c s && g_hdr s = true -> acceptable c p s = true).
-Proof. exact refuted_wrapper. Qed.
-Print Assumptions C22_refuted_wrapper.
-
 Theorem C22_refuted_negfee :
-  ~ (forall c p s p', cfg_ok c -> pipeline c p (STx s) = (R_OK, p') ->
-       g_fwd s && g_wrap s && g_hdr s = true -> acceptable c p s = true).
+  ~ (forall c p s p', cfg_ok c -> facts_consistent s = true -> pipeline c p (STx s) = (R_OK, p') ->
+       g_fwd s && g_hdr s = true -> acceptable c p s = true).
 Proof. exact refuted_negfee. Qed.
 Print Assumptions C22_refuted_negfee.
 
 Theorem C22_refuted_hdrempty :
-  ~ (forall c p s p', cfg_ok c -> pipeline c p (STx s) = (R_OK, p') ->
-       g_fwd s && g_wrap s && g_fee c s = true -> acceptable c p s = true).
+  ~ (forall c p s p', cfg_ok c -> facts_consistent s = true -> pipeline c p (STx s) = (R_OK, p') ->
+       g_fwd s && g_fee c s = true -> acceptable c p s = true).
 Proof. exact refuted_hdrempty. Qed.
 Print Assumptions C22_refuted_hdrempty.
 
 Theorem C22_guards_satisfiable :
-  exists c p s p', cfg_ok c /\ p <> [] /\ pipeline c p (STx s) = (R_OK, p')
-                   /\ g_fwd s && g_wrap s && g_fee c s && g_hdr s = true
+  exists c p s p', cfg_ok c /\ facts_consistent s = true /\ p <> [] /\ pipeline c p (STx s) = (R_OK, p')
+                   /\ g_fwd s && g_fee c s && g_hdr s = true
                    /\ acceptable c p s = true /\ length (members s) = 3%nat.
 Proof. exact guards_satisfiable. Qed.
 Print Assumptions C22_guards_satisfiable.
